@@ -108,9 +108,14 @@ where
       if window_over {
         let delay = (self.duration_selector)(&value);
         if self.edge.leading {
-          // the item emitted on the leading edge is not also the trailing one
-          self.trailing_value.rc_deref_mut().take();
-          self.observer.next(value)
+          // the item emitted on the leading edge is not also the trailing one;
+          // and if the task of the window that has just ended took it
+          // meanwhile (it runs on another thread and delivers the stored item
+          // on the trailing edge), it must not be emitted a second time
+          let taken = self.trailing_value.rc_deref_mut().take();
+          if taken.is_some() || !self.edge.tailing {
+            self.observer.next(value)
+          }
         }
         let task = OnceTask::new(
           throttle_task,
